@@ -149,13 +149,14 @@ static void tk_dispatch_cleanup(void* op) {
 #define A_CB G.stop_forwarded, G.in_request_stop, A_COMPLETE
 #define A_COMPLETE SS, TK, G.cb_state, G.cb_destructs, G.completed, G.channel, G.dead, G.snap_ss, G.snap_tk
 #define A_REGISTER G.cb_constructs, G.cb_token, G.inline_cb, A_CB
-#define SRC_OK(self) ((G.variant == V_SS || G.variant == V_TK) && (self) == THE_SOURCE && CB.source_ == THE_SOURCE && SRCV.op_ == &SS && (G.variant != V_TK || TRCV.op_ == (void*)&TK))
+#define SRC_OK(self) ((G.variant == V_SS || G.variant == V_TK) && (self) == THE_SOURCE && CB.source_ == THE_SOURCE)
+#define RCVS_OK (SRCV.op_ == &SS && (G.variant != V_TK || TRCV.op_ == (void*)&TK))
 #define OPS_UNCHANGED (SS.stopSource_.engaged == __CPROVER_old(SS.stopSource_.engaged) && SS.receiverToken_ == __CPROVER_old(SS.receiverToken_) && TK.stopSource_.engaged == __CPROVER_old(TK.stopSource_.engaged) && TK.receiverToken_ == __CPROVER_old(TK.receiverToken_))
 #define FRESH (!G.dead && G.completed == 0 && G.cb_destructs == 0 && G.in_request_stop == 0)
 
 /* _fss::stop_callback::operator(): { source_.request_stop(); } */
 void fss_stop_callback_call(struct fss_stop_callback* self)
-__CPROVER_requires(self == &CB && SRC_OK(CB.source_) && FRESH && G.cb_state == CB_EXEC_ME && G.stop_forwarded == 0 && THE_SOURCE->engaged)
+__CPROVER_requires(self == &CB && SRC_OK(CB.source_) && RCVS_OK && FRESH && G.cb_state == CB_EXEC_ME && G.stop_forwarded == 0 && THE_SOURCE->engaged)
 __CPROVER_assigns(A_CB)
 __CPROVER_ensures(G.stop_forwarded == 1 && G.in_request_stop == 0) /* C04: the parent's request is chained: exactly one request_stop() on the interposed source */
 __CPROVER_ensures(G.completed <= 1 && B_IFF(G.dead, G.completed == 1) && UNTOUCHED) /* the child may complete inside; nothing is touched afterwards */
@@ -165,7 +166,7 @@ __CPROVER_ensures(!G.inner_started ==> G.completed == 0) /* before the child is 
 
 /* fused_stop_source::register_callbacks(tokens...) */
 void fused_register_callbacks(struct fused_stop_source* self, int tokens)
-__CPROVER_requires(SRC_OK(self) && FRESH && G.cb_state == CB_NONE && G.cb_constructs == 0 && !self->engaged && !G.inner_started && !G.inline_cb && G.stop_forwarded == 0 && tokens == TOK_PARENT)
+__CPROVER_requires(SRC_OK(self) && RCVS_OK && FRESH && G.cb_state == CB_NONE && G.cb_constructs == 0 && !self->engaged && !G.inner_started && !G.inline_cb && G.stop_forwarded == 0 && tokens == TOK_PARENT)
 __CPROVER_assigns(A_REGISTER)
 __CPROVER_ensures(G.cb_constructs == 1 && G.cb_state == CB_REGISTERED && G.cb_token == TOK_PARENT && self->engaged) /* registered on the receiver's token */
 __CPROVER_ensures(G.stop_forwarded == (G.inline_cb ? 1u : 0u) && G.in_request_stop == 0) /* an already pending request has been forwarded, once */
@@ -193,7 +194,7 @@ __CPROVER_ensures(G.completed == 0 ==> (G.cb_destructs == 0)) /* ... and stays c
 /*@BODY ss_start*/
 
 void tk_op_start(struct tk_op* self)
-__CPROVER_requires(self == &TK && START_PRE(V_TK) && SRC_OK(&TK.stopSource_) && !TK.stopSource_.engaged && TK.receiverToken_ == TOK_PARENT && TRCV.op_ == (void*)&TK)
+__CPROVER_requires(self == &TK && START_PRE(V_TK) && SRC_OK(&TK.stopSource_) && !TK.stopSource_.engaged && TK.receiverToken_ == TOK_PARENT && TRCV.op_ == (void*)&TK && SRCV.op_ == &SS)
 __CPROVER_assigns(A_REGISTER, G.inner_starts, G.inner_started, G.sync_completion)
 __CPROVER_ensures(START_POST)
 __CPROVER_ensures(G.cb_constructs == 1 && G.cb_token == TOK_PARENT)
